@@ -24,7 +24,15 @@ translated definitions themselves.  harness/py2lean2.py is the translator; this 
         * `return e` / falling off the end of a method that mutates its receiver: `ret` / `end` templates may mention
           `{self}` (the current Lean name of the receiver) and so may every rule template;
         * an `if` whose translated test is the literal `true` / `false` (a keyword argument the call site fixes):
-          only the live branch is translated.
+          only the live branch is translated;
+        * normalisations before translation, each exact for Python's semantics: keyword arguments of a callee with a
+          known signature made positional (`f(a, y=c, x=b)` = `f(a, b, c)`); `xs = []; for t in it: xs.append(E)` =
+          `xs = [E for t in it]`; a local that aliases a mutable-array attribute (`h = self.h_matrix`) replaced by the
+          attribute when nothing re-binds it;
+        * INLINING of menpo helper functions for which no rule exists: a module-level helper called as an expression
+          (`_norm_ratio(source, target)`) or a function / unbound method called as a statement on a receiver
+          (`Translation._from_vector_inplace(self, p)`) is translated in place from ITS source text, parameters bound to
+          the arguments - helpers shared by several functions are thereby translated at every use.
   (2) the C08 vocabulary (rules) and the list of functions to translate, resolved through the live MROs.  The rules are
       kept compositional - one rule per call, never a rule for a nested expression where the parts have a meaning of
       their own (`x.centre()`, `x.norm()`, `a - b`, `a / b`, `optimal_rotation_matrix(…)`, `Rotation(r)`,
@@ -32,6 +40,7 @@ translated definitions themselves.  harness/py2lean2.py is the translator; this 
       translatable (refactorings/C08-1).
 """
 import ast
+import inspect
 import os
 from fractions import Fraction
 
@@ -60,13 +69,15 @@ class RulesX(py2lean2.Rules2):
     (dropped); `notnone`: names known not to be None (specialisation of a function to a call shape); expr rules may be
     flagged "bind" (monadic: hoisted) or "int" (an integer: true when non-zero in a test)."""
 
-    def __init__(self, expr=(), stmt=(), scratch=(), recv_name="self", drop=(), notnone=(), nonnull=(), **kw):
+    def __init__(self, expr=(), stmt=(), scratch=(), recv_name="self", drop=(), notnone=(), nonnull=(), alias_attrs=(),
+                 **kw):
         self.stmt_flag = [(s[3] if len(s) > 3 else "") for s in stmt]
         py2lean2.Rules2.__init__(self, expr=expr, stmt=[s[:3] for s in stmt], **kw)
         self.scratch = set(scratch)
         self.recv_name = recv_name
         self.drop = [_pat(p, "stmt") for p in drop]
         self.notnone = set(notnone)      # python names known not to be None (specialisation to a call shape)
+        self.alias_attrs = tuple(alias_attrs)   # attributes holding a mutable array: `h = x.attr` makes `h` an alias
         # expressions whose value is never None (their Lean type is not an Option); a local bound to one of them - or
         # to another such local - inherits that: `t = self.target; if t is None: …` is `if false`
         self.nonnull = [_sort_keywords(_pat(p, "expr")) for p in nonnull]
@@ -104,11 +115,178 @@ class _Scratch(ast.NodeTransformer):
         return node
 
 
+def _resolve(node, glob):
+    """the live object a Name / dotted Attribute denotes in the globals of the function being translated, or None"""
+    if isinstance(node, ast.Name):
+        return glob.get(node.id)
+    if isinstance(node, ast.Attribute):
+        base = _resolve(node.value, glob)
+        if base is None:
+            return None
+        try:
+            return getattr(base, node.attr, None)
+        except Exception:
+            return None
+    return None
+
+
+def _kw_to_positional(node, glob):
+    """`f(a, y=c, x=b)` -> `f(a, b, c)` for the leading parameters of a callee whose signature is known (a function,
+    `Cls.__init__`, or a class called as constructor): Python binds them identically"""
+    for n in ast.walk(node):
+        if not isinstance(n, ast.Call) or not n.keywords or any(k.arg is None for k in n.keywords) \
+                or any(isinstance(a, ast.Starred) for a in n.args):
+            continue
+        obj = _resolve(n.func, glob)
+        try:
+            if inspect.isclass(obj):
+                params = list(inspect.signature(obj.__init__).parameters.values())[1:]
+            elif inspect.isfunction(obj):
+                params = list(inspect.signature(obj).parameters.values())
+            else:
+                continue
+        except (TypeError, ValueError):
+            continue
+        params = [q for q in params if q.kind in (q.POSITIONAL_ONLY, q.POSITIONAL_OR_KEYWORD)]
+        kws = {k.arg: k for k in n.keywords}
+        i = len(n.args)
+        while i < len(params) and params[i].name in kws and params[i].default is inspect.Parameter.empty:
+            k = kws.pop(params[i].name)
+            n.args.append(k.value)
+            n.keywords.remove(k)
+            i += 1
+    return node
+
+
+def _loops_to_comprehensions(stmts):
+    """`xs = []` directly followed by `for t in it: xs.append(E)`  ->  `xs = [E for t in it]` (E does not mention xs)"""
+    out = []
+    i = 0
+    while i < len(stmts):
+        st = stmts[i]
+        nxt = stmts[i + 1] if i + 1 < len(stmts) else None
+        if (isinstance(st, ast.Assign) and len(st.targets) == 1 and isinstance(st.targets[0], ast.Name)
+                and isinstance(st.value, ast.List) and not st.value.elts and isinstance(nxt, ast.For) and not nxt.orelse
+                and len(nxt.body) == 1 and isinstance(nxt.body[0], ast.Expr) and isinstance(nxt.body[0].value, ast.Call)):
+            c = nxt.body[0].value
+            name = st.targets[0].id
+            if (isinstance(c.func, ast.Attribute) and c.func.attr == "append" and isinstance(c.func.value, ast.Name)
+                    and c.func.value.id == name and len(c.args) == 1 and not c.keywords
+                    and not any(isinstance(x, ast.Name) and x.id == name for x in ast.walk(c.args[0]))
+                    and not any(isinstance(x, ast.Name) and x.id == name for x in ast.walk(nxt.iter))):
+                comp = ast.ListComp(elt=c.args[0], generators=[ast.comprehension(target=nxt.target, iter=nxt.iter, ifs=[], is_async=0)])
+                out.append(ast.fix_missing_locations(ast.copy_location(
+                    ast.Assign(targets=[ast.Name(id=name, ctx=ast.Store())], value=comp), st)))
+                i += 2
+                continue
+        for fld in ("body", "orelse"):
+            if isinstance(getattr(st, fld, None), list) and not isinstance(st, (ast.FunctionDef, ast.ClassDef)):
+                setattr(st, fld, _loops_to_comprehensions(getattr(st, fld)))
+        out.append(st)
+        i += 1
+    return out
+
+
+class _Subst(ast.NodeTransformer):
+    def __init__(self, name, expr):
+        self.name, self.expr = name, expr
+
+    def visit_Name(self, node):
+        if node.id == self.name:
+            new = ast.parse(ast.unparse(self.expr), mode="eval").body
+            for x in ast.walk(new):
+                if hasattr(x, "ctx") and x is new:
+                    x.ctx = node.ctx
+            return ast.copy_location(new, node)
+        return node
+
+
+def _alias_subst(body, attrs):
+    """`h = obj.<attr>` for a mutable-array attribute: `h` is another name of the same array, so every later use of
+    `h` (in-place writes included) is a use of `obj.<attr>`.  Done only when `h` is assigned once, the statement is at
+    the top level of the function and nothing in the function re-binds such an attribute (no `x.<attr> = …`, no
+    `_set_h_matrix` / `__init__` call): then the substitution is exact."""
+    if not attrs:
+        return body
+    mod = ast.Module(body=body, type_ignores=[])
+    for n in ast.walk(mod):
+        if isinstance(n, (ast.Assign, ast.AugAssign)):
+            tg = n.targets if isinstance(n, ast.Assign) else [n.target]
+            for t in tg:
+                for x in ([t] if not isinstance(t, (ast.Tuple, ast.List)) else t.elts):
+                    if isinstance(x, ast.Attribute) and x.attr in attrs:
+                        return body
+        if isinstance(n, ast.Call) and isinstance(n.func, ast.Attribute) and (
+                "set_h_matrix" in n.func.attr or n.func.attr == "__init__"):
+            return body
+    out = list(body)
+    for i, st in enumerate(list(out)):
+        if (isinstance(st, ast.Assign) and len(st.targets) == 1 and isinstance(st.targets[0], ast.Name)
+                and isinstance(st.value, ast.Attribute) and st.value.attr in attrs and isinstance(st.value.value, ast.Name)):
+            name = st.targets[0].id
+            stores = [x for x in ast.walk(mod) if isinstance(x, ast.Name) and x.id == name and isinstance(x.ctx, ast.Store)]
+            if len(stores) != 1:
+                continue
+            sub = _Subst(name, st.value)
+            out = [ast.fix_missing_locations(sub.visit(x)) for j, x in enumerate(out) if x is not st]
+            return _alias_subst(out, attrs)
+    return out
+
+
 class TranslatorX(py2lean2.Translator2):
     def __init__(self, rules):
         py2lean2.Translator2.__init__(self, rules)
         self._pending = []
         self._tmp = 0
+        self._glob = [{}]
+        self._inlining = []
+
+    # ------------------------------------------------------------------------------------------ helper inlining
+    def _inline(self, node, scope):
+        """a call of a private helper FUNCTION of a menpo module (found in the globals of the function being
+        translated) for which no rule exists: its body is translated in place, parameters bound to the arguments"""
+        if not (isinstance(node, ast.Call) and isinstance(node.func, ast.Name)):
+            return None
+        fn = self._glob[-1].get(node.func.id)
+        if not inspect.isfunction(fn) or not getattr(fn, "__module__", "").startswith("menpo.") \
+                or fn in self._inlining or len(self._inlining) > 3:
+            return None
+        try:
+            sig = inspect.signature(fn)
+            ba = sig.bind(*node.args, **{k.arg: k.value for k in node.keywords if k.arg})
+        except (TypeError, ValueError):
+            return None
+        if any(k.arg is None for k in node.keywords) or len(ba.arguments) != len(sig.parameters):
+            return None          # (defaults of the helper: not handled)
+        fnode, _src = py2lean2.source_ast(fn)
+        lets, sc = [], {}
+        used = dict(scope)
+        for pname, arg in ba.arguments.items():
+            if not isinstance(arg, ast.AST):
+                return None
+            val = self.pure(arg, scope)
+            new = self.fresh(pname, used)
+            used["\0tmp" + new] = new
+            sc[pname] = new
+            if self._nonnull(arg, scope):
+                sc["\0nn:" + pname] = "\0"
+            lets.append("let %s := %s" % (new, val))
+
+        def no_end(_s, _i):
+            raise Untranslatable("helper %s falls off its end" % fn.__name__)
+        ctx = py2lean2._Ctx(exit_=lambda v, s_, i: "  " * i + v, end=no_end)
+        self._glob.append(fn.__globals__)
+        self._inlining.append(fn)
+        saved_ret, self.r.ret = self.r.ret, "{e}"
+        try:
+            body = [_sort_keywords(_kw_to_positional(st, fn.__globals__)) for st in fnode.body]
+            body = _loops_to_comprehensions(body)
+            text = self.block(body, sc, 0, ctx)
+        finally:
+            self.r.ret = saved_ret
+            self._inlining.pop()
+            self._glob.pop()
+        return "(" + "; ".join(lets) + ";\n" + text + ")"
 
     # ------------------------------------------------------------------------------------------ templates
     def _fmt(self, tmpl, env, scope):
@@ -156,6 +334,9 @@ class TranslatorX(py2lean2.Translator2):
         if isinstance(node, ast.Constant) and isinstance(node.value, float):
             fr = Fraction(repr(node.value))
             return "((%d : Rat) / %d)" % (fr.numerator, fr.denominator), ""
+        inl = self._inline(node, scope)
+        if inl is not None:
+            return inl, ""
         return py2lean2.Translator2.expr(self, node, scope)
 
     def _nonnull(self, node, scope):
@@ -266,6 +447,42 @@ class TranslatorX(py2lean2.Translator2):
                 if self.r.stmt_flag[i] == "bind":
                     return pad + self.r.bind.format(m=val, x=new, k=self.block(rest, sc, ind + 1, ctx))
                 return "%slet %s := %s\n%s" % (pad, new, val, self.block(rest, sc, ind, ctx))
+        # `Cls.method(obj, args…)` / `helper(obj, args…)` as a statement, no rule: a menpo function that updates its first
+        # parameter in place - its body is translated in place and the receiver re-bound to the result
+        if (isinstance(st, ast.Expr) and isinstance(st.value, ast.Call) and st.value.args
+                and isinstance(st.value.args[0], ast.Name) and not st.value.keywords):
+            fn = _resolve(st.value.func, self._glob[-1])
+            if inspect.isfunction(fn) and getattr(fn, "__module__", "").startswith("menpo.") \
+                    and fn not in self._inlining and len(self._inlining) <= 3:
+                fnode, _src = py2lean2.source_ast(fn)
+                params = [a.arg for a in fnode.args.args]
+                if len(params) == len(st.value.args) and not (fnode.args.vararg or fnode.args.kwarg or fnode.args.kwonlyargs):
+                    recv = st.value.args[0].id
+                    lets, sc = [], {}
+                    used = dict(scope)
+                    for pname, arg in zip(params, st.value.args):
+                        new = self.fresh(pname, used)
+                        used["\0tmp" + new] = new
+                        sc[pname] = new
+                        lets.append("let %s := %s" % (new, self.pure(arg, scope)))
+                    first = params[0]
+                    ctx2 = py2lean2._Ctx(exit_=lambda v, s_, i: "  " * i + v, end=lambda s_, i: "  " * i + s_[first])
+                    self._glob.append(fn.__globals__)
+                    self._inlining.append(fn)
+                    saved = (self.r.ret, self.r.recv_name)
+                    self.r.ret, self.r.recv_name = "{e}", first
+                    try:
+                        body = [_sort_keywords(_kw_to_positional(x, fn.__globals__)) for x in fnode.body]
+                        body = _alias_subst(_loops_to_comprehensions(body), self.r.alias_attrs)
+                        text = self.block(body, sc, ind + 1, ctx2)
+                    finally:
+                        self.r.ret, self.r.recv_name = saved
+                        self._inlining.pop()
+                        self._glob.pop()
+                    newr = self.fresh(recv, scope)
+                    sc2 = dict(scope)
+                    sc2[recv] = newr
+                    return "%slet %s := (%s;\n%s)\n%s" % (pad, newr, "; ".join(lets), text, self.block(rest, sc2, ind, ctx))
         if isinstance(st, ast.Assign) and len(st.targets) == 1 and isinstance(st.targets[0], ast.Name):
             e, flag = self.expr(st.value, scope)
             if flag != "bind":
@@ -353,7 +570,11 @@ class TranslatorX(py2lean2.Translator2):
         for p in arg_names:
             if p not in params:
                 raise Untranslatable("signature of %s changed: no parameter %r" % (node.name, p))
-        body = [_sort_keywords(st) for st in node.body]
+        glob = getattr(inspect.unwrap(fn), "__globals__", {})
+        self._glob = [glob]
+        body = [_sort_keywords(_kw_to_positional(st, glob)) for st in node.body]
+        body = _loops_to_comprehensions(body)
+        body = _alias_subst(body, self.r.alias_attrs)
         if self.r.scratch:
             tr = _Scratch(self.r.recv_name, self.r.scratch)
             body = [ast.fix_missing_locations(tr.visit(st)) for st in body]
@@ -534,8 +755,13 @@ def init_stmt(cl):
 
 
 NP_EXPR = [
-    ("$u[:, :$k].dot(1.0 / $s[:$k, None] * $v[:$k, :])", "np.pinv {u} {s} {v} {k}"),
-    ("$s.shape[0] - sum($s < $m)", "np.keep {s} {m}"),
+    # the truncated pseudo-inverse of `_build_coefficients`, one rule per numpy expression (so that any of them may be
+    # hoisted into a local or into a helper function)
+    ("sum($s < $m)", "np.nBelow {s} {m}"),
+    ("$s.shape[0] - $n", "np.keep {s} {n}"),
+    ("1.0 / $s[:$k, None]", "np.invSing {s} {k}"),
+    ("$a * $v[:$k, :]", "np.scaleRows {a} {v} {k}"),
+    ("$u[:, :$k].dot($x)", "np.leftDot {u} {k} {x}"),
     ("np.linalg.svd($a)", "np.svd {a}"),
     ("$x.target.points[$x.trilist]", "np.take (np.pts {x}.target) {x}.source"),
     ("barycentric_vectors($x.source.points, $x.trilist)", "np.bary (np.pts {x}.source) {x}.source"),
@@ -581,7 +807,7 @@ def obj_rules(cl, end=".ok {self}", ret=".ok ({e})", scratch=(), extra_expr=(), 
              ast.Div: "(e.scaleOf ({b}).n ({a}).n)"}
     return RulesX(expr=paren(expr), stmt=list(extra_stmt) + NP_STMT + obj_stmt() + init_stmt(cl), raise_=None,
                   raise_by=EXC, end=end, ret=ret, scratch=scratch, binop=binop, drop=drop,
-                  nonnull=("$x.target", "$x._target", "$x.source", "$x._source"))
+                  nonnull=("$x.target", "$x._target", "$x.source", "$x._source"), alias_attrs=("h_matrix", "_h_matrix"))
 
 
 # ---------------------------------------------------------------------------------------------------------- the file
@@ -627,6 +853,20 @@ structure NormOf (Pts : Type) where
 `HomogFamilyAlignment.copy / pseudoinverse` must bind `_h_matrix` to such a value: a dropped `.copy()` does not type-check -/
 structure Owned where
   m : Mat
+
+/-- `x.__class__` / `type(x)` of an alignment: the object it was read from (`cls.__new__(cls)` makes a blank one) -/
+structure ClsOf (Pts A : Type) where
+  o : Obj Pts A
+
+/-- `type(x.kernel)`: the kind of a kernel; calling it with the points of the inverse's source gives a kernel of the
+same kind centred there -/
+structure KernelCls where
+  kind : Option Nat
+
+/-- `target.norm() / source.norm()` in `procrustes_alignment`, by the two point sets -/
+structure RatioOf (Pts : Type) where
+  src : Pts
+  tgt : Pts
 """
 
 FOOTER = "\nend MenpoModel.Generated.C08\n"
@@ -937,13 +1177,16 @@ def edit_items(cl):
             return TranslatorX(rules_thunk()).function(getfn(), argmap, ind=1)
         items.append((name, sig, thunk, stub))
 
-    copy_expr = [("$s.__class__.__new__($s.__class__)", "(blank {s}.cls {s}.source {s}.target : Obj Pts A)"),
+    copy_expr = [("$s.__class__", "(ClsOf.mk {s})"),
+                 ("$c.__new__($c)", "(blank ({c}).o.cls ({c}).o.source ({c}).o.target : Obj Pts A)"),
+                 ("type($x.kernel)", "(KernelCls.mk {x}.kernel)"),
+                 ("$c($x.target.points)", "({c}).kind"), ("$c($x._target.points)", "({c}).kind"),
                  ("$x._h_matrix.copy()", "(Owned.mk {x}.h)"), ("$x.h_matrix.copy()", "(Owned.mk {x}.h)"),
                  ("$s.copy()", "genCopy {s}"),
                  ("$s._h_matrix_pseudoinverse()", "(Owned.mk (inv {s}.h))"),
                  # the inverse's kernel: same kind, re-centred on the inverse's source = our target (only that centre
                  # has a rule; the constructor call below must then make that point set the source)
-                 ("type($x.kernel)($x.target.points)", "{x}.kernel"), ("type($x.kernel)($x._target.points)", "{x}.kernel"),
+
                  ("ThinPlateSplines($x.target, $x.source, kernel=$k, min_singular_val=$m)",
                   "genInit_ThinPlateSplines np e (blank .tps {x}.target {x}.source) {x}.target {x}.source {k} {m}", "bind"),
                  ("np.dot($a.h_matrix, $b.h_matrix)", "mulMat (e.nDims {self}.source) {a}.h {b}.h"),
@@ -981,14 +1224,16 @@ def edit_items(cl):
         return similarity.procrustes_alignment
     proc_rules = lambda: RulesX(expr=paren([
         ("Translation(-$x.centre(), skip_checks=True)", "pk.negCentre {x}"),
-        ("UniformScale($t.norm() / $s.norm(), $n, skip_checks=True)", "pk.scale {s} {t} {n}"),
+        ("$x.norm()", "(NormOf.mk {x})"),
+        ("UniformScale($f, $n, skip_checks=True)", "pk.scale ({f}).src ({f}).tgt {n}"),
         ("Similarity.init_identity($n)", "pk.identity {n}"),
         ("$x.n_dims", "nDims {x}"),
         ("optimal_rotation_matrix($a, $b, allow_mirror=$m)", "pk.optimalRotation {m} ({a}).1 ({b}).1 ({a}).2 ({b}).2"),
         ("Rotation($r, skip_checks=True)", "pk.rotation {r}"),
         ("$p.apply($x)", "(({p}, {x}) : Mat × Pts)"),
         ("$t.pseudoinverse()", "pk.pinv {t}")]),
-        stmt=[("$p.compose_before_inplace($t)", "p", "pk.before {p} {t}")], raise_=None, raise_by=EXC, ret="{e}")
+        stmt=[("$p.compose_before_inplace($t)", "p", "pk.before {p} {t}")], raise_=None, raise_by=EXC, ret="{e}",
+        binop={ast.Div: "(RatioOf.mk ({b}).n ({a}).n)"})
 
     def proc_sig():
         d = TranslatorX(proc_rules()).defaults(proc())
